@@ -28,10 +28,15 @@ def run_server(proto, world, client_fragments, ctx=None, bringup=False):
         if srv is not None:
             info["early_shutdown"] = bool(getattr(srv, "_BaseServer__shutdown_request", False))
             srv._BaseServer__shutdown_request = True
+        for other in net.servers:
+            if other is not srv:
+                other._BaseServer__shutdown_request = True
     sched.on_horizon = on_horizon
     import socket as real_socket
     saved = (socketserver.socket, socketserver._ServerSelector, socketserver.threading,
              vars(SRV).get("threading"))
+    saved_srv_socket = vars(SRV).get("socket")
+    saved_gai = real_socket.getaddrinfo
     saved_sock = (real_socket.setdefaulttimeout, real_socket.getdefaulttimeout)
     # what the code under test set before the server was started (e.g. while connecting to the
     # device) is carried into the model and taken off the real process
@@ -46,7 +51,13 @@ def run_server(proto, world, client_fragments, ctx=None, bringup=False):
         # any thread the code under test creates anywhere joins the schedule
         rt.Thread = fake_thr.Thread
         rt.Timer = fake_thr.Timer
-        socketserver.socket = vnet.FakeSocketModule(net)
+        fake_sock = vnet.FakeSocketModule(net)
+        socketserver.socket = fake_sock
+        # name resolution of the bind host belongs to the model too: the host stands for an IPv4
+        # and an IPv6 address (seeded change C12-m21: one listener thread per address)
+        if saved_srv_socket is real_socket:
+            SRV.socket = fake_sock
+        real_socket.getaddrinfo = fake_sock.getaddrinfo
         socketserver._ServerSelector = lambda: vnet.FakeSelector(net)
         socketserver.threading = fake_thr
         if "threading" in vars(SRV):
@@ -75,5 +86,8 @@ def run_server(proto, world, client_fragments, ctx=None, bringup=False):
         if _thr is not None:
             SRV.threading = _thr
         real_socket.setdefaulttimeout, real_socket.getdefaulttimeout = saved_sock
+        real_socket.getaddrinfo = saved_gai
+        if saved_srv_socket is real_socket:
+            SRV.socket = real_socket
         world.on_exchange = None
     return net, info, crashed
